@@ -17,6 +17,7 @@ package main
 // raises panicError.
 
 import (
+	"errors"
 	"fmt"
 	"go/constant"
 	"go/token"
@@ -56,6 +57,9 @@ type Sym struct {
 	Name string
 	// N: for an error value, the length of its text when the model could compute it (0: unknown)
 	N int
+	// Kind: for an error value, its dynamic type where the model knows it ("*errors.errorString", "*fmt.wrapError",
+	// "*io/fs.PathError"); Text: its text where the model could compute it
+	Kind, Text string
 }
 
 type NilV struct{}
@@ -1066,6 +1070,9 @@ func (ip *Interp) apply(cc *ssa.CallCommon, fv AV, args []AV) AV {
 		if sym, isSym := iv.V.(*Sym); isSym {
 			if cc.Method.Name() == "Error" && strings.HasPrefix(sym.Name, "error:") {
 				return kStr(strings.TrimPrefix(sym.Name, "error:"))
+			}
+			if cc.Method.Name() == "Error" && sym.Text != "" {
+				return kStr(sym.Text)
 			}
 			if ip.OnInvoke != nil {
 				if r, ok := ip.OnInvoke(ip, sym, cc.Method.Name(), args); ok {
@@ -2322,44 +2329,104 @@ func (ip *Interp) model(fn *ssa.Function, args []AV) (res AV, ok bool) {
 		return kInt(0), true
 	case "errors.New", "fmt.Errorf", "github.com/go-spring/stdlib/errutil.Explain", "github.com/go-spring/stdlib/errutil.Stack":
 		sym := &Sym{Name: "error"}
-		if name == "fmt.Errorf" || name == "errors.New" {
-			// the length of the text, where it is determined by constant strings, integers and the lengths of wrapped
-			// errors (a text that grows faster than the input is a resource problem the evaluators look for)
-			if f, ok := args[0].(constant.Value); ok && f.Kind() == constant.String {
-				format := constant.StringVal(f)
-				var vals []any
-				known := true
-				if name == "fmt.Errorf" && len(args) > 1 {
-					if sv, ok := args[1].(*SliceV); ok {
-						for _, e := range sv.elems() {
-							if iv, ok := e.(*IfaceV); ok {
-								e = iv.V
+		// the text and its length, where they are determined by constant strings, integers and the texts of wrapped
+		// errors (a text that grows faster than the input is a resource problem the evaluators look for), and the
+		// dynamic type (errors.New and fmt.Errorf without %w: *errors.errorString; one %w: *fmt.wrapError; errutil's
+		// Stack and Explain are fmt.Errorf("%s >> %w") / ("%s: %w") around a non-nil error and fmt.Errorf otherwise)
+		fi, rest := 0, 1
+		var inner AV
+		sep := ""
+		if strings.HasPrefix(name, "github.com/") {
+			fi, rest, inner = 1, 2, args[0]
+			sep = " >> "
+			if strings.HasSuffix(name, "Explain") {
+				sep = ": "
+			}
+		}
+		if f, ok := args[fi].(constant.Value); ok && f.Kind() == constant.String {
+			format := constant.StringVal(f)
+			var vals []any
+			known, textKnown := true, true
+			if name != "errors.New" && len(args) > rest {
+				if sv, ok := args[rest].(*SliceV); ok {
+					for _, e := range sv.elems() {
+						if iv, ok := e.(*IfaceV); ok {
+							e = iv.V
+						}
+						switch x := e.(type) {
+						case constant.Value:
+							switch x.Kind() {
+							case constant.String:
+								vals = append(vals, constant.StringVal(x))
+							case constant.Int:
+								n, _ := constant.Int64Val(x)
+								vals = append(vals, n)
+							default:
+								vals = append(vals, "?")
+								textKnown = false
 							}
-							switch x := e.(type) {
-							case constant.Value:
-								switch x.Kind() {
-								case constant.String:
-									vals = append(vals, constant.StringVal(x))
-								case constant.Int:
-									n, _ := constant.Int64Val(x)
-									vals = append(vals, n)
-								default:
-									vals = append(vals, "?")
-								}
-							case *Sym:
-								if x.N > 0 && x.N < 1<<22 {
-									vals = append(vals, fmt.Errorf("%s", strings.Repeat("e", x.N)))
-								} else {
-									known = false
-								}
+						case *Sym:
+							switch {
+							case strings.HasPrefix(x.Name, "error:"):
+								vals = append(vals, errors.New(strings.TrimPrefix(x.Name, "error:")))
+							case x.Text != "":
+								vals = append(vals, errors.New(x.Text))
+							case x.N > 0 && x.N < 1<<22:
+								vals = append(vals, fmt.Errorf("%s", strings.Repeat("e", x.N)))
+								textKnown = false
 							default:
 								known = false
 							}
+						default:
+							known = false
 						}
 					}
 				}
+			}
+			if known {
+				var text string
+				if name == "errors.New" {
+					text = format
+				} else {
+					text = fmt.Errorf(format, vals...).Error()
+				}
+				nW := strings.Count(format, "%w")
+				if inner != nil && !isNilAV(inner) {
+					nW = 1
+					innerText, innerN := "", 0
+					if iv, ok := inner.(*IfaceV); ok {
+						if x, ok := iv.V.(*Sym); ok {
+							switch {
+							case strings.HasPrefix(x.Name, "error:"):
+								innerText = strings.TrimPrefix(x.Name, "error:")
+							case x.Text != "":
+								innerText = x.Text
+							}
+							innerN = max(x.N, len(innerText))
+						}
+					}
+					if innerText == "" {
+						textKnown = false
+						innerText = strings.Repeat("e", innerN)
+					}
+					if innerN == 0 {
+						known = false
+					}
+					text = fmt.Sprintf(format, vals...) + sep + innerText
+				}
 				if known {
-					sym.N = len(fmt.Errorf(format, vals...).Error())
+					sym.N = len(text)
+				}
+				if known && textKnown {
+					sym.Text = text
+				}
+				switch nW {
+				case 0:
+					sym.Kind = "*errors.errorString"
+				case 1:
+					sym.Kind = "*fmt.wrapError"
+				default:
+					sym.Kind = "*fmt.wrapErrors"
 				}
 			}
 		}
